@@ -34,7 +34,15 @@ class C04(Prop):
                    "theorems, evaluated by CPython itself for the driver)",
                    "Python dicts are modelled as association lists; theorems are stated for the sorted representative, "
                    "independence of the bytes from the insertion order is C08"]
-    partial = {}
+    partial = {
+        "C04_tree_written": "writer half only: every fact of every variant (any depth) and of the other sections is in the document under a "
+                            "unique section; the reader half for the forest/images/checksums (deserialize d = ok (norm t)) is not proved in Lean, "
+                            "it is validated per case (model load = norm = real load)",
+        "C04_release_readback": "one section of the reader ([release]); [tree], variants, images, checksums, stage2, media readers are tied by "
+                                "correspondence only",
+        "C04_disc_readback_partial": "stated on the list of lines; joining/splitting the four lines at line feeds and the decimal round trip "
+                                     "of the disc numbers are hypotheses validated per case",
+    }
 
     # ------------------------------------------------------------------ generators
     def cases(self, rng, tier, budget):
